@@ -127,8 +127,15 @@ CHECKS["C09"] = (
     "bins and real sequence re-chunking (sequences restricted to new bounds, idempotence, chunk offsets across a 128 kb boundary, "
     "2^29 boundary = recorded finding F6c).",
     _NOTE + " cgranges branch not installed, not covered.", "DESIGN.md §3 C09")
-for _p in ["C10", "C11", "C17",
-           "C19"]:
+CHECKS["C19"] = (
+    _CH + " in CrossHair's native mode: search for an input that raises an undocumented exception or yields an ill-formed object",
+    "Constructors and 18 coordinate methods of locations are called with UNCONSTRAINED symbolic integers (negative, inverted, huge) on "
+    "all three strands; Parent/Sequence/CDS/Transcript/Feature/Gene/collection/variant constructors with every kind of inconsistent "
+    "argument; boundary probes (zero-length requests, window == length, empty/duplicate children, codon-less CDS, 5000-block "
+    "locations under the default recursion head-room). Post-condition: a well-formed value, or an exception from the allowed set "
+    "(BioCantorException subclasses, ValueError, TypeError, NotImplementedError); any other exception is a counterexample.",
+    _NOTE, "DESIGN.md §3 C19")
+for _p in ["C10", "C11", "C17"]:
     NOT_APPLICABLE[_p] = "check not built yet (build in progress; see DESIGN.md §3 for the planned solver-based check)"
 NOT_APPLICABLE["C12"] = ("GenBank writer cannot emit a feature on the installed Biopython (SeqFeature(strand=) TypeError), the "
                          "parser needs the absent PyVCF module, and the oracle is third-party text parsing (Bio.SeqIO): nothing "
